@@ -200,4 +200,50 @@ theorem section_ranges_exact (boundary : Bytes) (parts : List Part) (epilogue : 
     parseChunks boundary chunks = .ok ⟨expectedMarkups boundary parts, none, true⟩ :=
   parse_refines_R boundary chunks _ (by rw [hc]; exact run_encodeBody boundary parts epilogue hwf)
 
+/-! ### non-vacuity: concrete instances meeting the hypotheses; the residue outside them -/
+section NonVacuity
+
+/-- boundary `b`; one part with header line `X` and data `CR LF - -` (a partial look-alike of the
+delimiter `CR LF - - b`); epilogue `CR LF` -/
+def exBoundary : Bytes := [98]
+def exParts : List Part := [⟨[[88]], [13, 10, 45, 45]⟩]
+def exBody : Bytes := encodeBody exBoundary exParts [13, 10]
+
+example : CR ∉ exBoundary := by decide
+example : (2 : Nat) < (delim exBoundary).length := by decide
+example : WFBody exBoundary exParts := by decide
+example : exBody = [45, 45, 98, 13, 10, 88, 13, 10, 13, 10, 13, 10, 45, 45, 13, 10, 45, 45, 98, 45, 45, 13, 10] := by
+  decide
+/-- the reference machine is defined on the example and gives the encoder's sections -/
+example : run exBoundary exBody =
+    some ⟨[⟨.data, 0, 0⟩, ⟨.headers, 5, 6⟩, ⟨.data, 10, 14⟩], none, true⟩ := by decide
+example : expectedMarkups exBoundary exParts = [⟨.data, 0, 0⟩, ⟨.headers, 5, 6⟩, ⟨.data, 10, 14⟩] := by decide
+/-- an instance of `markup_split_independent`: a prefix ending inside the closing delimiter, cut
+inside the look-alike and inside the delimiter -/
+example : parseChunks exBoundary (cutAt (exBody.take 19) 0 [12, 13, 17]) =
+    parseChunks exBoundary [exBody.take 19] :=
+  markup_cut_independent exBoundary exParts [13, 10] (by decide) _ (List.take_prefix _ _) _
+example : (parseChunks exBoundary [exBody.take 19]).toOption =
+    some ⟨[⟨.data, 0, 0⟩, ⟨.headers, 5, 6⟩, ⟨.data, 10, 14⟩], none, false⟩ := by decide
+/-- an instance of the hypothesis of `eater_refines_R` with a pending partial CRLFCRLF -/
+example : ∀ k, Phase.headers 2 = .headers k → 0 < k → (0 : Nat) = 0 := fun _ _ _ => rfl
+
+/-- Residue (outside "well-formed"): a header block containing `CR LF CR x`.  In one piece the
+sequence is passed over; when a chunk ends right after the bare CR the eater raises
+`MalformedHeadersError`.  The reference machine is undefined there, so no theorem speaks about
+this input. -/
+example : (parseChunks exBoundary [[45, 45, 98, 13, 10, 88, 13, 10, 13], [89, 13, 10, 13, 10]]).toOption =
+      some ⟨[⟨.data, 0, 0⟩], some .malformedHeaders, false⟩ ∧
+    (parseChunks exBoundary [[45, 45, 98, 13, 10, 88, 13, 10, 13, 89, 13, 10, 13, 10]]).toOption =
+      some ⟨[⟨.data, 0, 0⟩, ⟨.headers, 5, 10⟩], none, false⟩ := by decide
+example : run exBoundary [45, 45, 98, 13, 10, 88, 13, 10, 13, 89, 13, 10, 13, 10] = none := by decide
+/-- junk after a delimiter: an error or silently skipped, by chunking; undefined in the reference -/
+example : (parseChunks exBoundary [[45, 45, 98, 120], [121]]).toOption =
+      some ⟨[⟨.data, 0, 0⟩], some .malformedHeaders, false⟩ ∧
+    (parseChunks exBoundary [[45, 45, 98, 120, 121]]).toOption = some ⟨[⟨.data, 0, 0⟩], none, false⟩ := by
+  decide
+example : run exBoundary [45, 45, 98, 120, 121] = none := by decide
+
+end NonVacuity
+
 end Ombott.Multipart
